@@ -9,6 +9,7 @@ package main
 // both roles; then a second session continuing on the same counter store.
 
 import (
+	"github.com/b2broker/simplefix-go/session/messages"
 	"fmt"
 	"strconv"
 	"strings"
@@ -58,6 +59,11 @@ type c05Obs struct {
 	tEnd     time.Duration
 	assign   string
 	sendErrs int
+	strict   bool
+	shared   messages.Message // the object one sender sent repeatedly (same-object scenarios)
+	outs2    []outMsg         // ... and what a second session put on the wire for it
+	self2    string
+	peer2    string
 }
 
 func c05Scenario(name string, p map[string]any) *schedScenario {
@@ -103,10 +109,16 @@ func c05Scenario(name string, p map[string]any) *schedScenario {
 			g := g
 			go func() {
 				shared := fixgen.NewMarketDataRequest().SetMDReqID(fmt.Sprintf("g%dshared", g))
+				if g == 0 {
+					obs.shared = shared
+				}
 				for m := 0; m < M; m++ {
 					msg := fixgen.NewMarketDataRequest().SetMDReqID(fmt.Sprintf("g%dm%d", g, m))
 					if extra == "same-object" {
 						msg = shared // one message object sent again and again (as the repository's own high-load test does)
+						if m > 0 && buf > 1 {
+							time.Sleep(7 * time.Millisecond) // ... later: each transmission carries its own send time
+						}
 					}
 					if err := w.s.Send(msg); err != nil {
 						obs.sendErrs++
@@ -132,6 +144,27 @@ func c05Scenario(name string, p map[string]any) *schedScenario {
 		obs.outs = w.take()
 		obs.self, obs.peer = w.self, w.peer
 		obs.n = G * M
+		obs.strict = extra != "hb"
+		if extra == "same-object" && obs.shared != nil {
+			// the same object goes out through a second session with other identifiers
+			other := "ini"
+			if role == "ini" {
+				other = "acc"
+			}
+			var w2 *world
+			vsched.Deterministic(func() {
+				w2 = newWorld(wcfg{Role: other, Buf: buf, HbMin: 1, HbMax: 60, HbInt: 30})
+				w2.logonOK(30)
+			})
+			w2.take()
+			time.Sleep(3 * time.Millisecond)
+			if err := w2.s.Send(obs.shared); err != nil {
+				obs.sendErrs++
+			}
+			vsched.Settle()
+			obs.outs2 = w2.take()
+			obs.self2, obs.peer2 = w2.self, w2.peer
+		}
 		for _, o := range obs.outs {
 			if id, ok := get(o.Msg, "262"); ok {
 				obs.assign += id + ","
@@ -172,6 +205,10 @@ func c05Scenario(name string, p map[string]any) *schedScenario {
 			if off < obs.tStart || off > obs.tEnd || off < prevT {
 				return "sending-time-not-send-time", fmt.Sprintf("52=%s (+%v) outside [%v,%v] or before the previous message's (+%v)", ts, off, obs.tStart, obs.tEnd, prevT)
 			}
+			if obs.strict && off != o.At {
+				// strict virtual time: a message reaches the wire at the instant it is sent
+				return "sending-time-not-send-time", fmt.Sprintf("52=%s (+%v) on a message sent at +%v", ts, off, o.At)
+			}
 			prevT = off
 			if mtype(o.Msg) == "V" {
 				app++
@@ -179,6 +216,24 @@ func c05Scenario(name string, p map[string]any) *schedScenario {
 		}
 		if app != obs.n {
 			return "application-message-lost-or-duplicated", fmt.Sprintf("%d of %d on the wire: %s", app, obs.n, obs.assign)
+		}
+		for _, o := range obs.outs2 {
+			if !wellFormed(o.Msg) {
+				return "malformed-outbound", show(o.Msg)
+			}
+			if s, _ := get(o.Msg, "49"); s != obs.self2 {
+				return "wrong-sender-comp-id", "second session: " + show(o.Msg)
+			}
+			if s, _ := get(o.Msg, "56"); s != obs.peer2 {
+				return "wrong-target-comp-id", "second session: " + show(o.Msg)
+			}
+			ts, _ := get(o.Msg, "52")
+			if tm, err := time.Parse("20060102-15:04:05.000", ts); err != nil || tm.Sub(vsched.Epoch) != o.At {
+				return "sending-time-not-send-time", fmt.Sprintf("second session: 52=%s on a message sent at +%v", ts, o.At)
+			}
+		}
+		if obs.shared != nil && len(obs.outs2) != 1 && obs.self2 != "" {
+			return "application-message-lost-or-duplicated", fmt.Sprintf("second session: %d messages on the wire", len(obs.outs2))
 		}
 		return "", ""
 	}
